@@ -7,7 +7,11 @@ use crate::sync_util;
 
 use std::cell::Cell;
 use std::marker::PhantomData;
-use std::time::{Duration, Instant};
+use std::time::Duration;
+#[cfg(not(all(excsn_fibre_verif, not(loom))))]
+use std::time::Instant;
+#[cfg(all(excsn_fibre_verif, not(loom)))]
+use crate::internal::sync::Instant;
 
 use crate::internal::sync::{hint, thread, Arc, AtomicBool, Ordering};
 
@@ -22,8 +26,15 @@ const SPIN_INITIAL: u32 = if crate::internal::sync::IS_LOOM { 1 } else { 16 };
 const SPIN_MIN: u32 = if crate::internal::sync::IS_LOOM { 1 } else { 2 };
 const SPIN_MAX: u32 = if crate::internal::sync::IS_LOOM { 1 } else { 64 };
 
+#[cfg(not(excsn_fibre_verif))]
 thread_local! {
   static THREAD_SPIN_LIMIT: Cell<u32> = Cell::new(SPIN_INITIAL);
+}
+// Same cell with a const initialiser: the lazy-TLS slow path is not executable
+// by the bounded model checker.
+#[cfg(excsn_fibre_verif)]
+thread_local! {
+  static THREAD_SPIN_LIMIT: Cell<u32> = const { Cell::new(SPIN_INITIAL) };
 }
 
 /// The synchronous sending end of a bounded SPSC channel.
